@@ -643,6 +643,29 @@ fn validate_entry<S: ranger::Store<SignedEntry> + PublicKeyStore>(
     Ok(())
 }
 
+/// Current time as the replica sees it (verification hook).
+#[cfg(feature = "verif-hooks")]
+pub(crate) fn verif_now() -> u64 {
+    system_time_now()
+}
+
+/// The validation callback of `Replica::sync_process_message` (verification hook).
+#[cfg(feature = "verif-hooks")]
+pub(crate) fn verif_validate_remote<S: ranger::Store<SignedEntry> + PublicKeyStore>(
+    now: u64,
+    store: &S,
+    namespace: NamespaceId,
+    entry: &SignedEntry,
+    from: PeerIdBytes,
+    remote_content_status: ContentStatus,
+) -> bool {
+    let origin = InsertOrigin::Sync {
+        from,
+        remote_content_status,
+    };
+    validate_entry(now, store, namespace, entry, &origin).is_ok()
+}
+
 /// Error emitted when inserting entries into a [`Replica`] failed
 #[derive(thiserror::Error, derive_more::Debug, derive_more::From)]
 pub enum InsertError {
@@ -1031,6 +1054,10 @@ impl RangeKey for RecordIdentifier {
 }
 
 fn system_time_now() -> u64 {
+    #[cfg(feature = "verif-hooks")]
+    if let Some(t) = crate::verif::clock_micros() {
+        return t;
+    }
     SystemTime::now()
         .duration_since(SystemTime::UNIX_EPOCH)
         .expect("time drift")
